@@ -416,6 +416,62 @@ func (l *layout) evalSpec(s *spec, baseline map[string][]diagT) ([]diagT, int, *
 	return got, status, nil
 }
 
+// evalAPI runs the same spec through the library API with
+// LinterOptions.WorkingDir = the spec's cwd while the PROCESS working directory
+// is elsewhere ("/"): the property demands the same result ("independent of
+// the current working directory").  Files are given by absolute path (a
+// relative path could not be read from another process cwd).
+func (l *layout) evalAPI(s *spec, baseline map[string][]diagT) *failure {
+	if s.Mode != 0 || s.Spelling == "noargs" || len(s.Extra) > 0 {
+		return nil
+	}
+	for _, n := range []string{"actionlint.yaml", "actionlint.yml"} {
+		os.Remove(filepath.Join(l.root, ".github", n))
+	}
+	if s.CfgName != "" {
+		must(os.WriteFile(filepath.Join(l.root, ".github", s.CfgName), []byte(s.configText()), 0o644))
+	}
+	must(os.Chdir("/"))
+	wd := l.cwd(s.CwdKind)
+	var out bytes.Buffer
+	lt, err := actionlint.NewLinter(&out, &actionlint.LinterOptions{Oneline: true, Color: actionlint.ColorOptionKindNever, IgnorePatterns: s.CLI, WorkingDir: wd})
+	if err != nil {
+		return nil // invalid pattern: covered by the CLI stream (exit status)
+	}
+	var files []string
+	for _, f := range s.Files {
+		files = append(files, filepath.Join(l.root, filepath.FromSlash(f)))
+	}
+	errs, err := lt.LintFiles(files, nil)
+	want, _ := expected(s, baseline)
+	mk := func(what string, got []diagT) *failure {
+		return &failure{What: what, Key: fmt.Sprintf("c15:api-workingdir:cwd=%s", s.CwdKind), Spec: s, Args: files,
+			Cwd: "/ (process), WorkingDir=" + wd, Config: s.configText(), Got: got, Want: want, Stdout: out.String()}
+	}
+	if err != nil {
+		return mk("library run with WorkingDir failed: "+err.Error(), nil)
+	}
+	var got []diagT
+	for _, e := range errs {
+		p := e.Filepath
+		if !filepath.IsAbs(p) {
+			p = filepath.Join(wd, p)
+		}
+		p = filepath.Clean(p)
+		fi := -1
+		for i, rel := range wfFiles {
+			if p == filepath.Join(l.root, filepath.FromSlash(rel)) {
+				fi = i
+			}
+		}
+		got = append(got, diagT{File: fi, Line: e.Line, Col: e.Column, Msg: e.Message, Kind: e.Kind})
+	}
+	if !sameDiags(got, want) {
+		return mk("library run with LinterOptions.WorkingDir differing from the process working directory: output differs from the unfiltered list minus the applicable patterns", got)
+	}
+	return nil
+}
+
 // ---- Coq case ----------------------------------------------------------------
 
 func coqNList(xs []int) string {
@@ -652,6 +708,12 @@ func main() {
 	for i, s := range specs {
 		got, status, fail := l.evalSpec(s, baseline)
 		sum.Evaluations++
+		if fail == nil {
+			if f2 := l.evalAPI(s, baseline); f2 != nil {
+				fail = f2
+			}
+			sum.Dist["api_workingdir_runs"]++
+		}
 		_, args := l.args(s)
 		id := l.cwd(s.CwdKind) + "\x00" + strings.Join(args, "\x00") + "\x00" + s.CfgName + s.configText()
 		distinct[id] = true
